@@ -26,34 +26,41 @@ type edgeFrom struct {
 	from *ssa.BasicBlock
 }
 
-// pathConds lists conditions that together cover every way of reaching b, one per path into the nearest join
-// above b (depth joins deep); [""] when there is no join before the function entry or a loop header.
-func (f *Frame) pathConds(b *ssa.BasicBlock, depth int) []string {
-	if depth <= 0 {
-		return []string{""}
-	}
+// pathConds lists the ways of reaching b, one per path into the nearest join(s) above b (depth joins deep): for each
+// its condition (the conditions together cover b's reach condition), the blocks on the path down from the last join
+// considered, and that join's source block (everything that reaches it may lie on the path).
+type pathInfo struct {
+	cond   string
+	blocks []*ssa.BasicBlock
+	tail   *ssa.BasicBlock
+}
+
+func (f *Frame) pathConds(b *ssa.BasicBlock, depth int) []pathInfo {
+	var chain []*ssa.BasicBlock
 	for n := 0; n < 1000; n++ {
+		chain = append(chain, b)
 		es := f.inEdges[b]
-		if f.loops[b] != nil || len(es) == 0 {
-			return []string{""}
+		if depth <= 0 || f.loops[b] != nil || len(es) == 0 {
+			return []pathInfo{{cond: "", blocks: chain, tail: b}}
 		}
 		if len(es) == 1 {
 			b = es[0].from
 			continue
 		}
-		var out []string
+		var out []pathInfo
 		for _, e := range es {
 			for _, sub := range f.pathConds(e.from, depth-1) {
-				if sub == "" {
-					out = append(out, e.cond)
-				} else {
-					out = append(out, "(and "+e.cond+" "+sub+")")
+				pi := pathInfo{cond: e.cond, tail: sub.tail}
+				if sub.cond != "" {
+					pi.cond = "(and " + e.cond + " " + sub.cond + ")"
 				}
+				pi.blocks = append(append([]*ssa.BasicBlock{}, chain...), sub.blocks...)
+				out = append(out, pi)
 			}
 		}
 		return out
 	}
-	return []string{""}
+	return []pathInfo{{cond: "", blocks: chain, tail: b}}
 }
 
 type loopInfo struct {
